@@ -329,3 +329,34 @@ def optional_string_oracle(assign):
                 return len(assign[c[1]]) > 0
         return None
     return oracle
+
+
+def subscript_stores(prog, fi, self_cls=None):
+    """[(stmt, base, key, value, guards)] for every  base[key] = value  of fi, in canonical form; guards are the conditions of the
+    enclosing ifs, of earlier ifs that leave the function/loop, and ('except', type) inside an exception handler."""
+    sy = Sym(prog, fi, self_cls or fi.cls)
+    out = []
+    for st in walk_body(fi.node):
+        if isinstance(st, ast.Assign):
+            for t in st.targets:
+                if isinstance(t, ast.Subscript) and not isinstance(t.slice, ast.Slice):
+                    env, guards = sy.env_at(st)
+                    base = sy.expr(t.value, env)
+                    if base[0] == "filled":
+                        base = base[1]
+                    out.append((st, base, sy.expr(t.slice, env), sy.expr(st.value, env), guards))
+    return out
+
+
+def method_calls_on(prog, fi, names, self_cls=None):
+    """[(call, receiver canonical, args canonical, guards)] for calls  recv.<name>(...)  with name in names"""
+    sy = Sym(prog, fi, self_cls or fi.cls)
+    out = []
+    for c in walk_body(fi.node):
+        if isinstance(c, ast.Call) and isinstance(c.func, ast.Attribute) and c.func.attr in names:
+            env, guards = sy.env_at(c)
+            recv = sy.expr(c.func.value, env)
+            if recv[0] == "filled":
+                recv = recv[1]
+            out.append((c, recv, tuple(sy.expr(a, env) for a in c.args), guards))
+    return out
